@@ -260,7 +260,7 @@ def alphabet():
 
 
 def random_event(rng):
-    e = {"id": rng.choice([None, "a", "a", "b", "b", "c"]),
+    e = {"id": rng.choice([None, "a", "a", "b", "b", "c", ""]),      # "" is an (odd) test id, None is "no test"
          "st": rng.choice([None, None, "inprogress", "success", "fail", "exists", "skip", "xfail",
                            "uxsuccess", "unknown"])}
     if rng.random() < 0.5:
